@@ -220,7 +220,8 @@ func (dmx *Demuxer) updateData(ds []*DemuxerData) (d *DemuxerData) {
 
 		// Update program map
 		for _, v := range ds {
-			if v.PAT != nil {
+			// Only a PAT carried by the PAT PID tells where the PMTs are
+			if v.PAT != nil && v.PID == PIDPAT {
 				for _, pgm := range v.PAT.Programs {
 					// Program number 0 is reserved to NIT
 					if pgm.ProgramNumber > 0 {
